@@ -32,6 +32,10 @@ pub struct DirCase {
     /// size (65536 slots) with live entries in its last cluster
     #[serde(default)]
     pub pad_deleted: u32,
+    /// the directory is first listed while the medium is in an older state (every slot of the data / root area
+    /// reads as deleted), then the current state appears and the caller reaches for `device()`
+    #[serde(default)]
+    pub stale_first: bool,
 }
 
 fn hex(b: &[u8]) -> String {
@@ -356,7 +360,9 @@ pub fn gen_case(seed: u64, thorough: bool) -> DirCase {
         pad_deleted = 65536u32.saturating_sub(slots.len() as u32);
         bufs.truncate(2);
     }
-    DirCase { vol: v, place, fragmented, slots: slots.iter().map(|s| hex(s)).collect(), bufs, flips, seed, pad_deleted }
+    // not drawn from `r`: the stream above stays what older replay files were made with
+    let stale_first = !max_dir && Rng::new(seed ^ 0x5354_414c_4531).chance(1, 4);
+    DirCase { vol: v, place, fragmented, slots: slots.iter().map(|s| hex(s)).collect(), bufs, flips, seed, pad_deleted, stale_first }
 }
 
 fn build_slots(v: &VolSpec, place: u8, _fragmented: bool, seed: u64, thorough: bool) -> (Vec<[u8; 32]>, u32) {
@@ -503,6 +509,17 @@ pub fn dir_eval(prop: &'static str, case: &DirCase) -> CaseOutcome {
     };
     if cerr.is_some() {
         probes.hit("directory_chain_broken_by_corruption");
+    }
+    if case.stale_first {
+        // an older state of the medium (another host has not stored the entries yet), listed once; then the
+        // current state, and the caller goes through `device()`: every answer below must come from the medium
+        let first_dir_block = if g.fat32 { g.first_data } else { g.root_dir_start };
+        ro.old_from.set(Some(first_dir_block));
+        let mut n = 0usize;
+        let _ = guarded!(fs.iterate(dir, 0, &mut |_| n += 1));
+        ro.old_from.set(None);
+        fs.touch_device();
+        probes.hit("directory_changed_on_the_medium_between_two_listings");
     }
     // ---- C06: plain listing
     let mut listing: Vec<embedded_sdmmc::DirEntry> = Vec::new();
